@@ -107,7 +107,7 @@ VN = Hole("impl Node", "impl VNode", why="proxy trait for the sealed full_moon::
 
 VERIF_MOD = Raw("""
 #[verifier::external_body] pub fn hole_vec_token() -> Vec<Token> { unimplemented!() }
-#[verifier::external_body] pub fn hole_usize() -> usize { unimplemented!() }
+#[verifier::external_body] pub fn hole_usize() -> (r: usize) ensures r < 0x1000_0000 { unimplemented!() }   // a Display width: machine arithmetic assumption (below 2^28; Verus models usize as 32 or 64 bits)
 #[verifier::external_body] pub fn hole_bool() -> bool { unimplemented!() }
 """, module="verif")
 
